@@ -221,12 +221,13 @@ def check_ukfp(meta, h, stats, notes):
     o = {"um": um, "uc": uc, "km": km, "kc": kc, "X": X}
     probs = []
     if (xr, xc) != (N, (2 * N + 1) * k):
-        probs.append(("prop", "ukf-points-shape", "sigma points of the prediction input are %dx%d, expected %dx%d" % (xr, xc, N, (2 * N + 1) * k)))
+        probs.append(("corr", "ukf-points-shape", "sigma points of the step's input are %dx%d, model: %dx%d (no rounding bound can be derived)" % (xr, xc, N, (2 * N + 1) * k)))
         return probs, o, None
     means, covs = aug_beliefs(meta, meta["Q"])
     _, _, c = U.weights_frac(N, meta["alpha"], meta["beta"], meta["kappa"])
     pp, Bs = U.check_points_linear(X, means, covs, c, N, k, stats, "ukfp")
-    probs += [("prop", a, b) for a, b in pp]
+    if pp:  # sigma-point predicates belong to C03; here they are counted only
+        notes["sigma_point_predicates_failed(C03)"] = notes.get("sigma_point_predicates_failed(C03)", 0) + len(pp)
     return probs, o, Bs
 
 
@@ -351,12 +352,13 @@ def check_ukfc(meta, h, stats, notes):
         return [], o, None
     probs = []
     if (xr, xc) != (N, (2 * N + 1) * k):
-        probs.append(("prop", "ukf-points-shape", "sigma points of the correction input are %dx%d, expected %dx%d" % (xr, xc, N, (2 * N + 1) * k)))
+        probs.append(("corr", "ukf-points-shape", "sigma points of the step's input are %dx%d, model: %dx%d (no rounding bound can be derived)" % (xr, xc, N, (2 * N + 1) * k)))
         return probs, o, None
     means, covs = aug_beliefs(meta, meta["R"])
     _, _, c = U.weights_frac(N, meta["alpha"], meta["beta"], meta["kappa"])
     pp, Bs = U.check_points_linear(X, means, covs, c, N, k, stats, "ukfc")
-    probs += [("prop", a, b) for a, b in pp]
+    if pp:  # sigma-point predicates belong to C03; here they are counted only
+        notes["sigma_point_predicates_failed(C03)"] = notes.get("sigma_point_predicates_failed(C03)", 0) + len(pp)
     return probs, o, Bs
 
 
